@@ -123,7 +123,53 @@ def C14(run):
     for f in run.findings(): oracle_finding(run, f)
     run.assumptions += EDIT_ASSUME + ['the dictionary laws are proved for the top-level set of the heap model; nested sets and the scope mapping are covered by the mapping search (test)']
 
-PROPS = {'C14': C14, 'C09': C09, 'C12': C12, 'C16': C16, 'C17': C17, 'C08': C08, 'C04': C04, 'C05': C05, 'C19': C19}
+# ------------------------------------------------------------------------------------------ layout family
+F0_ASSUME = ['fragment F0 (sets, rec, lists, bindings with bare/quoted/dotted names, opaque atoms, single-line comments in item slots, arbitrary whitespace in every gap): '
+             'theorems are about the hand-written reader/printer model coq/F0/F0s.v, tied to from_cst/rebuild by the in-Coq render correspondence on REAL tree-sitter CSTs',
+             'parser hypotheses: an error-free CST tiles its source (checked on every converted CST); the printed text of a canonical tree parses back to that tree (sampled by re-parsing outputs)',
+             'constructs outside F0 (lambda heads, let, call, with, if, assert, operators, select, inherit) are covered by the slot matrix and the seeded search (tests), not by the theorems']
+def matrix(run, prop):
+    rc, out = sh([PY, os.path.join(ORACLES, 'slot_matrix.py'), prop], timeout=1200, cwd=ORACLES)
+    try: res = json.loads(out.strip().split('\n')[-1])
+    except Exception:
+        run.oblige('search:slot-matrix', False, 'matrix harness failed: ' + out[-1200:]); return
+    fs = [f for f in run.findings() if f.get('kind') == 'matrix']
+    hits, unmatched = {}, []
+    for x in res['failing']:
+        m = [f for f in fs for s in f['sites'] if x[0] == s[0] and x[1] == s[1] and x[2] in s[2] and x[3] == s[3]]
+        if m: hits[m[0]['id']] = hits.get(m[0]['id'], 0) + 1
+        else: unmatched.append(x)
+    run.search['slot-matrix'] = {'cells': res['cells'], 'judged': res['judged'], 'failing_cells': len(res['failing']), 'matched_to_listed_findings': hits, 'unlisted': len(unmatched), 'exhaustive': True}
+    run.evaluations += res['judged']
+    for i in range(res['judged']): run.distinct.add('cell#%d' % i)
+    run.samples.append({'search': 'slot-matrix', 'case': {'construct': 'set_multi', 'slot': 'a|=', 'kind': 'own_c', 'context': 'bindval'}})
+    for x in unmatched[:3]:
+        run.violation(x[4], {'kind': 'input', 'search': 'slot-matrix', 'case': {'construct': x[0], 'slot': x[1], 'trivia': x[2], 'context': x[3], 'input': x[5], 'output': x[6]}})
+    for f in fs:
+        run.known_finding(f, hits.get(f['id'], 0) > 0, 'no matrix cell of this finding fails any more')
+
+def layout(run, prop, with_matrix=True):
+    run.static()
+    run.props()
+    big = run.tier == 'thorough'
+    run.suite('render', 'f0_corr.py', [run.seed, 4800 if big else 800], 'F0')
+    if with_matrix: matrix(run, prop)
+    res = oracle(run, 'render-search', 'render_search.py', [prop, run.seed, 6000 if big else 900], timeout=3000)
+    hits = res.get('known_hits', {}) if res else {}
+    for f in run.findings():
+        if f.get('kind') != 'matrix':
+            oracle_finding(run, f)
+    run.assumptions += F0_ASSUME
+
+def C01(run): layout(run, 'C01')
+def C02(run): layout(run, 'C02', with_matrix=False)
+def C03(run): layout(run, 'C03')
+def C18(run): layout(run, 'C18')
+def C06(run):
+    layout(run, 'C06')
+    oracle(run, 'edit-search', 'edit_search.py', ['C06', run.seed, 4000 if run.tier == 'thorough' else 500], timeout=3000)
+
+PROPS = {'C01': C01, 'C02': C02, 'C03': C03, 'C06': C06, 'C18': C18, 'C14': C14, 'C09': C09, 'C12': C12, 'C16': C16, 'C17': C17, 'C08': C08, 'C04': C04, 'C05': C05, 'C19': C19}
 
 def main():
     ap = argparse.ArgumentParser()
